@@ -64,6 +64,12 @@ class Model:
 def real_apply(g, op):
     """Execute the operation on the real object; returns the object to continue with (neg returns a new one)."""
     k = op[0]
+    if k == "set_values_alias_rev":        # the argument is a LIVE VIEW of the object's own table (reversed upper-bound column)
+        g.set_values(g.get_upper_bounds()[::-1])
+        return g
+    if k == "set_known_values_alias":      # bulk reset to the object's own current values, passed as the live view get_values() returns
+        g.set_known_values(g.get_values())
+        return g
     if k in ("set_value", "reveal_value"):
         getattr(g, k)(op[2], coal(op[1]))
     elif k in ("unset_value", "unreveal_value"):
@@ -224,6 +230,11 @@ def alphabet(n: int, values, bounds, m: Model, with_neg: bool):
             vals = tuple(b if i % 2 == 0 else bounds[0] for i in range(size))
             ops.append(("set_lower_bounds", sub, vals))
             ops.append(("set_upper_bounds", sub, vals))
+    if n <= 3:
+        # arguments that alias the object's own table: the operation must behave as if it had been given a copy
+        ops.append(("set_values_alias_rev",))
+        if all(m.t[s][0] for s in range(N)):
+            ops.append(("set_known_values_alias",))
     if with_neg:
         ops.append(("neg",))
     # de-duplicate (patterns coincide for singletons)
@@ -275,7 +286,13 @@ def explore(st: Stats, n: int, roots, values, bounds, max_depth: int | None, wit
                     continue
                 st.transitions += 1
                 m2 = m.copy()
-                m2.apply(op)
+                if op[0] == "set_values_alias_rev":
+                    snap = np.array(g.get_upper_bounds(), dtype=np.float64)[::-1].copy()      # what the caller passed, as of call time
+                    m2.apply(("set_values", None, tuple(float(x) + 0.0 for x in snap)))
+                elif op[0] == "set_known_values_alias":
+                    pass                                                                       # same knowledge, same values
+                else:
+                    m2.apply(op)
                 key = (read(g2).key, model_key(m2))
                 if key in seen:
                     continue
@@ -322,7 +339,11 @@ def unit(u) -> Stats:
             for op in ops[first_ops[0]::first_ops[1]]:
                 g2 = real_apply(g.copy(), op)
                 m2 = m.copy()
-                m2.apply(op)
+                if op[0] == "set_values_alias_rev":
+                    snap = np.array(g.get_upper_bounds(), dtype=np.float64)[::-1].copy()
+                    m2.apply(("set_values", None, tuple(float(x) + 0.0 for x in snap)))
+                elif op[0] != "set_known_values_alias":
+                    m2.apply(op)
                 roots.append((g2, m2, [op]))
                 st.transitions += 1
             depth = depth - 1
@@ -368,10 +389,14 @@ def replay(doc: dict):
         g, m, _ = fresh_root(n)
     for op in hist:
         op = tuple(tuple(x) if isinstance(x, list) else x for x in op)
+        snap = np.array(g.get_upper_bounds(), dtype=np.float64)[::-1].copy()
         try:
             g = real_apply(g, op)
         except Exception as e:  # noqa: BLE001
             return True, f"{op} raised {type(e).__name__}: {e}"
-        m.apply(op)
+        if op[0] == "set_values_alias_rev":
+            m.apply(("set_values", None, tuple(float(x) + 0.0 for x in snap)))
+        elif op[0] != "set_known_values_alias":
+            m.apply(op)
     msg = compare(g, m) or probe_independence(g, n)
     return bool(msg), f"replay {hist}: {msg or 'object agrees with the reference model'}"
